@@ -151,7 +151,7 @@ def cells(tier):
                        max_violations=10))
 
     wk = lambda n: "W" in n
-    big = 1 if q else 6
+    big = 1 if q else 3
     for n, t in DATES.items():
         add("date", n, t, 240 * big, week=wk(n))
         if not q:
@@ -182,7 +182,7 @@ def cells(tier):
                     for tzn in TZS:
                         for sepb, sep in ((84, None), (Q, None), (32, " ")):
                             combos.append((dn, tn, k, tzn, sepb, sep))
-        combos = combos[::4]      # every 4th combination of the full product: the tier stays near an hour on 16 cores
+        combos = combos[::10]     # every 10th combination of the full product: the tier stays near an hour on 16 cores
     # the longest documented rendering, handed over as a stream (str / bytes / stream inputs must be equivalent)
     long_tpl = DATES["YYYY-MM-DD"] + [84] + TIMES["hh:mm:ss"] + frac(9, False) + TZS["+hh:mm"]
     add("dt", "YYYY-MM-DDThh:mm:ss.9+hh:mm", long_tpl, 300 * big, via="stream")
